@@ -541,6 +541,10 @@ def giConform (sc : Scn) (bld : Builder) (snap : List Vtx) (errExpected : Bool) 
       if want.all (fun w => got.count w == want.count w) ∧ got.length = want.length then none
       else some s!"generator_invocations_model={want.length}_impl={got.length}"))
 
+/-- the builder after the generator loop for this target (`none`: a generator reports an error) -/
+def expandFor (sc : Scn) (bld : Builder) (tgt : FuncDesc) : Option Builder :=
+  expandGens sc.genOf bld (genVerts (preGenGraph bld sc.fn tgt))
+
 def verdictStr (v : Option String) : String := match v with | none => "ok" | some m => "FAIL:" ++ noSpace m
 
 def runCall (fl : Flags) (b : Block) (conv : Bool := false) : Res :=
